@@ -623,6 +623,18 @@ example : (run true (.group false [(30, 0)] (.block false true 20 (.seq
       (.group false [(6, 0), (40, 0)] (.sleep 100))))) { cancelAt := some 7 }).1 = some .cancelled := by
   decide
 
+/-- A cancel at the very instant at which a member finishes by itself (outside the parity side
+condition of the theorem: member completions are even instants).  The model places it after the
+completions of its instant have been booked and before anybody has acted on them (the cancel
+wins over the joiner's wake-up): the finished member is not swept, the others are, the task ends
+`Cancelled`.  This placement ('done' in the harness) is compared with the real code by the
+correspondence; the neighbouring loop iterations are judged by the oracle only. -/
+example : (run true (.group true [(6, 0), (40, 4)] .skip) { cancelAt := some 6 }).1 = some .cancelled ∧
+    (run true (.group true [(6, 0), (40, 4)] .skip) { cancelAt := some 6 }).2.2 =
+      [.gexit (some .cancelled) 0 10] ∧
+    (run true (.group false [(6, 0), (40, 0)] (.sleep 2)) { cancelAt := some 40 }).1 = some .cancelled := by
+  decide
+
 /-! ### the clean-up a group promises -/
 
 theorem doSleep_mono (s : TS) (d : Nat) : s.now ≤ (doSleep s d).2.now := by
